@@ -209,7 +209,25 @@ def programs(tier, seed):
         if L is None:
             continue
         shapes.append(("shape.%d" % len(shapes), "shape", (L, V, cs)))
-    return progs + shapes
+    # one constant side for EVERY binary operator (the rewrites of ~=, >=, >, <= and the zero special cases of = and <)
+    mixed = []
+    small = [0, 1, -1, 2, 65535, 65536, -65536, 2147483647, -2147483647]
+    for tok, sym in BIN_OPS:
+        cs_list = [0, 1] if tok in ("AND", "OR") else (small if tier == "thorough" else [0, 1, -1, 65536, -2147483647])
+        for c in cs_list:
+            for side in ("r", "l"):
+                if side == "r":
+                    L = "var v;\nproc main() is 0(v %s %s)\n" % (sym, lit(c)); V = "var v; var x;\nproc main() is 0(v %s x)\n" % sym
+                else:
+                    L = "var v;\nproc main() is 0(%s %s v)\n" % (lit(c), sym); V = "var v; var x;\nproc main() is 0(x %s v)\n" % sym
+                mixed.append(("mixed.%s.%s.%d" % (tok, side, len(mixed)), "shape", (L, V, [c], tok in ("AND", "OR"))))
+        # the result used as a number inside a larger expression
+        c = cs_list[0]
+        L = "var v;\nproc main() is 0((v %s %s) + 40)\n" % (sym, lit(c)); V = "var v; var x;\nproc main() is 0((v %s x) + 40)\n" % sym
+        mixed.append(("mixed.%s.n.%d" % (tok, len(mixed)), "shape", (L, V, [c], tok in ("AND", "OR"))))
+    for c in (0, 1, 5, -3, 65536):
+        mixed.append(("mixed.NOTNEG.%d" % len(mixed), "shape", ("val k = %s;\nvar v;\nproc main() is 0(v + ((~k) + (-k)))\n" % lit(c), "var v; var x;\nproc main() is 0(v + ((~x) + (-x)))\n", [c], False)))
+    return progs + shapes + mixed
 
 
 def var_words(labs, n, what):
@@ -288,13 +306,16 @@ def main(chk, replay_file):
             if name in ("op.PLUS", "op.LS"):
                 jobs.append(J(name + ".canary", unit, "h_prog", unwind=401, flags=PF, defines=["CANARY"], kind="canary", checks=[], timeout=600))
         else:
-            L, V, cs = data
+            L, V, cs = data[0], data[1], data[2]
+            boolv = len(data) > 3 and data[3]
             imgL, labsL, _ = compile_x(chk, xcmp, name + ".lit", L)
             imgV, labsV, _ = compile_x(chk, xcmp, name + ".var", V)
             wl = var_words(labsL, 1, name)
             wv = var_words(labsV, 1 + len(cs), name)
             body = c_array("IMGL", imgL) + c_array("IMGV", imgV)
             body += "void h_prog(void) {\n  uint32_t cex_v = nondet_u32();\n"
+            if boolv:
+                body += "  __CPROVER_assume(cex_v <= 1); /* boolean-typed operand */\n"
             body += "  run_image(IMGL, %d); lowbank[%d] = cex_v; exec(); int exitL = exitCode;\n" % (len(imgL), wl[0])
             body += "  run_image(IMGV, %d); lowbank[%d] = cex_v;%s exec(); int exitV = exitCode;\n" % (
                 len(imgV), wv[0], "".join(" lowbank[%d] = (uint32_t)(%dLL);" % (wv[1 + i], c) for i, c in enumerate(cs)))
